@@ -52,6 +52,24 @@ CHECKS["C08"] = dict(
     technique="Coq proof over a parser model + model/implementation correspondence",
     ref="5/C08")
 
+_TXFLOW_NOTE = ("Trusted: Coq kernel; hand-written model TxFlow.v/MemPool.v validated by correspondence on a real Node "
+                "(in-package harness); relevance is a boolean per tx (C08 composes), hashes are ids, output fetcher answers "
+                "in order; atomicity at the granularity of processUnconfirmedTx / ProcessBlock / one delay-check pass.")
+for _pid, _what in [
+    ("C03", "soundness, completeness with spent outputs, delivered-as-new at most once (duplicates, several announcers, inv/tx races, re-announcement after confirmation, restart)"),
+    ("C06", "a block transaction conflicting with a delivered unconfirmed tx yields exactly one cancelled+unsafe update and eviction, the block is otherwise processed normally"),
+    ("C07", "flags exclusive, unsafe sticky, safe only when vouched / no conflict / delay elapsed, once; safe reported by the delay check when due"),
+    ("C11", "after a clean restart at any point: no second delivery as new, confirmation is an update with proof, no second safe, GetTx returns the stored copy"),
+]:
+    CHECKS[_pid] = dict(
+        text="Machine-checked proof (Coq) over the node-level transaction pipeline model: for every valid history the "
+             "executable property monitor never objects to the model's notification trace (" + _what + "). The same monitor "
+             "runs on the real node's traces in the correspondence check, which also compares every notification with the "
+             "model step by step (real handlers, real ProcessBlock, real checkTxDelays goroutine, restart on the same storage).",
+        note=_TXFLOW_NOTE,
+        technique="Coq invariant proof over an executable model + model/implementation correspondence + trace monitor",
+        ref="5/C03-C06-C07-C11")
+
 NOT_APPLICABLE = {}
 
 
